@@ -23,7 +23,7 @@ type SQLGen struct {
 	DB *model.DB
 }
 
-var strDomain = []string{"", "a", "b", "ab", "B", "a b", "abc", "z", "a  b", " a b", "it\\'s", "a\\\\b", "\"q\""}
+var strDomain = []string{"", "a", "b", "ab", "B", "a b", "abc", "z", "a  b", " a b", "it\\'s", "a\\\\b", "\"q\"", "true", "false", "order", "and", "*", "=", "select", "TRUE", "null"}
 
 func (g *SQLGen) LitFor(t string) proto.Val {
 	r := g.R
@@ -759,6 +759,45 @@ func (g *SQLGen) Agg7(table string, join string) *proto.NStmt {
 			}
 			return &proto.Cond{Op: []string{"=", "!="}[r.Intn(2)], LHS: &proto.Operand{Col: f.Name}, RHS: model.LitOp(proto.Str([]string{"1", "12", ""}[r.Intn(3)]))}
 		})
+	}
+	if !padded && len(n.GroupBy) > 0 && n.Where == nil && r.Chance(1, 4) {
+		// every grouping column named in the condition, one of them through an
+		// OR of two equalities with different values: the groups stay apart
+		var conds []*proto.Cond
+		for gi, gb := range n.GroupBy {
+			name := gb.Col
+			var a, b proto.Val
+			switch name {
+			case "gi":
+				a, b = proto.Int(1), proto.Int(12)
+			case "gj":
+				a, b = proto.Int(23), proto.Int(3)
+			case "g1":
+				a, b = proto.Str("1"), proto.Str("12")
+			case "g2":
+				a, b = proto.Str("23"), proto.Str("3")
+			case "gb":
+				a, b = proto.Bool(true), proto.Bool(false)
+			default:
+				conds = nil
+			}
+			if a.K == 0 {
+				conds = nil
+				break
+			}
+			col := &proto.Operand{Col: name}
+			eq := func(v proto.Val) *proto.Cond { return &proto.Cond{Op: "=", LHS: col, RHS: model.LitOp(v)} }
+			if gi == 0 {
+				conds = append(conds, model.Or(eq(a), eq(b)))
+			} else {
+				conds = append(conds, eq(a))
+			}
+		}
+		// (no parentheses in the grammar: an OR can only stand at the top, so
+		// only a single grouping column gets the OR form)
+		if len(conds) == 1 {
+			n.Where = conds[0]
+		}
 	}
 	onlyCounts := true
 	for _, a := range aggs {
